@@ -4,3 +4,19 @@
 pub fn fmt_stub(_args: core::fmt::Arguments<'_>) -> String {
     String::new()
 }
+
+/// `core::str::count::count_chars` (behind `Chars::count`): std's SWAR implementation makes
+/// CBMC explore word-aligned chunk loops over a slice of symbolic length; this is the
+/// textbook definition (number of non-continuation bytes), used for the `char` harnesses.
+pub fn count_chars_stub(s: &str) -> usize {
+    let b = s.as_bytes();
+    let mut n = 0;
+    let mut i = 0;
+    while i < b.len() {
+        if (b[i] as i8) >= -0x40 {
+            n += 1;
+        }
+        i += 1;
+    }
+    n
+}
